@@ -286,11 +286,12 @@ Definition fn_rule (code : N) (self : expr) (l : list expr) (dl : list cx) (x : 
   else if mem_code code boolean_codes || mem_code code set_codes then CErr EXN_SYMENGINE
   else fdiff self code l dl x.
 
+(* the other factors of a product: the dictionary without the entry at hand, as Mul::from_dict(one, d)
+   builds it (the entries are reused as they are, not rebuilt through pow) *)
 Definition prod_entries (l : list (expr * expr)) : option cx :=
   match l with
   | [] => None
-  | q :: r => Some (fold_left (fun acc q => CMul acc (CPow (CE (fst q)) (CE (snd q)))) r
-                              (CPow (CE (fst q)) (CE (snd q))))
+  | _ => Some (CE (EMul (NInt 1) l))
   end.
 
 (* the derivative of pow(p.first, p.second) for an entry of a Mul dictionary *)
